@@ -10,6 +10,7 @@ CONSTANTS
   StartAll = TRUE
   StartSuf = {TRUE}
   EvpAny = FALSE
+  SymFirst = TRUE
   WithSetLast = FALSE
   Guard = "filter"
 VIEW View
